@@ -137,7 +137,9 @@ theorem pickSet_map {α β : Type} (f : α → β) (labels Q : List ℕ) (xs : L
     | cons x xs =>
       have := ih xs
       simp only [pickSet] at this ⊢
-      cases h : Q.contains l <;> simp [List.filter_cons, h, this]
+      by_cases h : l ∈ Q
+      · simpa [List.filter_cons, h] using this
+      · simpa [List.filter_cons, h] using this
 
 theorem pickSet_length_le {α : Type} (labels Q : List ℕ) (xs : List α) :
     (pickSet labels Q xs).length ≤ (labels.filter fun l => Q.contains l).length := by
@@ -149,27 +151,9 @@ theorem pickSet_length_le {α : Type} (labels Q : List ℕ) (xs : List α) :
     | cons x xs =>
       have := ih xs
       simp only [pickSet] at this ⊢
-      cases h : Q.contains l
+      by_cases h : l ∈ Q
       · simpa [List.filter_cons, h] using this
       · simpa [List.filter_cons, h] using this
-
-theorem pickSet_mem {α : Type} (labels Q : List ℕ) (xs : List α) : ∀ x ∈ pickSet labels Q xs, x ∈ xs := by
-  induction labels generalizing xs with
-  | nil => simp [pickSet]
-  | cons l ls ih =>
-    cases xs with
-    | nil => simp [pickSet]
-    | cons x xs =>
-      have := ih xs
-      simp only [pickSet] at this ⊢
-      intro y hy
-      cases h : Q.contains l
-      · simp only [List.zip_cons_cons, List.filter_cons, h] at hy
-        exact List.mem_cons_of_mem _ (this y (by simpa using hy))
-      · simp only [List.zip_cons_cons, List.filter_cons, h, List.map_cons, List.mem_cons] at hy
-        rcases hy with rfl | hy
-        · exact List.mem_cons_self ..
-        · exact List.mem_cons_of_mem _ (this y (by simpa using hy))
 
 /-! ### column sums -/
 
